@@ -123,6 +123,32 @@ class _OldReused:
 from .base import ReusedEnv as Reused        # noqa: E402  (one Parser/AstBuilder/IdGenerator + explicit TokenMatcher per shard)
 
 
+def stream_agrees(text, o, M, case, prop):
+    """What the stream reports for a source — the gherkinDocument (locations included) or the parseError envelopes — is what
+    Parser.parse reports for the same text: the stream layer adds the uri and nothing else."""
+    if o.status == "crash":
+        return
+    st, envs, opened, _ = observe.enum_observed(text, uri="u.feature", options=(False, True, False))
+    M.count("stream_vs_parse_compared")
+    if st != "ok":
+        M.violation(prop + ".stream", {"what": "exception escaped GherkinEvents.enum", **envs}, case, mechanism=observe.f1_from_opened(text, opened))
+        return
+    if o.status == "ok":
+        docs = [e["gherkinDocument"] for e in envs if "gherkinDocument" in e]
+        got = strip({k: v for k, v in docs[0].items() if k != "uri"}, ids=True) if len(docs) == 1 else None
+        want = strip(o.ast, ids=True)
+        if got != want:
+            M.violation(prop + ".stream", {"what": "the stream's gherkinDocument (locations included) differs from what Parser.parse returns for the same text",
+                                           "first_differences": [(p, short(a, 100), short(b, 100)) for p, a, b in (docmodel.diff(want, got)[:3] if got is not None else [])],
+                                           "envelopes": [next(iter(e)) for e in envs][:5]}, case)
+    else:
+        got = [(e["parseError"]["source"].get("location"), e["parseError"].get("message")) for e in envs if "parseError" in e]
+        want = [(e["location"], e["message"]) for e in o.errors]
+        if got != want or len(got) != len(envs):
+            M.violation(prop + ".stream", {"what": "the stream's parseError envelopes (locations, messages) differ from the errors Parser.parse raises for the same text",
+                                           "stream": short(got, 200), "parse": short(want, 200), "envelopes": [next(iter(e)) for e in envs][:5]}, case)
+
+
 _SubBuilderClass = []
 
 
@@ -170,7 +196,11 @@ def check_doc(R, M, case, prop, reused=None):
             idg = IdGenerator()
             builder = _SubBuilder(idg)
             M.count("parses_with_astbuilder_subclass")
-        o = observe.parse_observed(R.text, stop=stop, as_scanner=as_scanner, builder=builder, idgen=idg)
+        # ... and every sixth one from a file, through TokenScanner(path), as the command-line scripts read their input
+        as_file = (M.cases % 6 == 1) and observe.file_loadable(R.text)
+        if as_file:
+            M.count("parses_from_files")
+        o = observe.parse_observed(R.text, stop=stop, as_scanner=as_scanner, builder=builder, idgen=idg, as_file=as_file)
     deciding = {"C03": {"G4"}, "C04": {"G8"}}[prop]
     apply_parse_monitors(o, M, case, deciding, skip=() if prop == "C04" else ("G5",))
     cover_transitions(o, M)
@@ -218,6 +248,8 @@ def check_doc(R, M, case, prop, reused=None):
         if locdf:
             M.violation("C04.location", {"what": "reported location differs from the position the renderer wrote the element at",
                                          "first_differences": [(p, a, b) for p, a, b in locdf[:4]]}, case)
+        if M.cases % 3 == 1 and dd == "en":          # (the stream reads with the default English matcher)
+            stream_agrees(R.text, o, M, case, prop)
         # how hard was this document for column arithmetic?
         for l in R.lines:
             if "\t" in l:
